@@ -48,7 +48,12 @@ def run(ctx):
     if pcm:
         ctx.ob('1f partial_cmp-delegates', 'K9-agreement', pcm.path, 'partial_cmp delegates to cmp (consistent orders)', len(pcm.call_sites('<db::Operation<Key, Value> as std::cmp::Ord>::cmp', 'std::cmp::Ord::cmp')) == 1, '')
     # 2. iterator re-seek
-    for fn in ("btree::iter::BTreeIterator::<'a>::next_backend", "btree::iter::BTreeIterator::<'a>::seek_backend", "btree::iter::BTreeIterator::<'a>::seek_backend_to_last"):
+    # the functions of the iterator that can re-open the tree (found by what they do: `seek_backend_to_last` may be folded into
+    # `seek_backend(SeekTo::Last, ..)`)
+    REFRESHERS = sorted(p_ for p_, b_ in F.bodies.items() if p_.startswith('btree::iter::BTreeIterator') and '{closure' not in p_ and b_.call_sites('btree::btree::BTree::open', 're:BTreeTable::with_locked$')
+                        and lib.sites_reaching(b_, ['btree::btree::BTree::open']) and any(n == 'record_id' and 1 <= l <= b_.argc for l, n in b_.names.items()))
+    ctx.ob('2a0 refresh-functions', 'anchor', 'btree::iter::BTreeIterator', 'the iterator has at least two functions that re-open the tree when the record id moved (stepping and seeking)', len(REFRESHERS) >= 2, str(REFRESHERS))
+    for fn in REFRESHERS:
         b = ctx.body(fn)
         if not b:
             continue
@@ -114,7 +119,7 @@ def run(ctx):
             continue
         sk = lib.sites_reaching(b, ["re:BTreeIterator::<'a>::seek_backend(_to_last)?$", 're:BTreeIterator.*::seek_backend(_to_last)?$'])
         sk = [x for x in sk if not call_matches(b.term(x), ["re:BTreeIterator.*::(seek|seek_to_first|seek_to_last)$"])]
-        if not sk or b.path.endswith('::seek_backend') or b.path.endswith('::seek_backend_to_last'):
+        if not sk or b.path in REFRESHERS:
             continue
         nre += 1
         clr = core.stmt_sites_assigning_field(b, '.BTreeIterator.pending_backend')
@@ -159,12 +164,10 @@ def run(ctx):
                    'when the record id changed since the pending tree item was fetched, the item is discarded on every path before it can be returned (no extra condition)', bool(clears) and w is None,
                    'clear sites %s; path from the changed-id edge to the use: %s' % (clears, lib.short_path(ii, w) if w else ''))
     # the iterator walks the tree under the log-overlay read lock
-    for fn, callee in (("btree::iter::BTreeIterator::<'a>::seek", "btree::iter::BTreeIterator::<'a>::seek_backend"),
-                       ("btree::iter::BTreeIterator::<'a>::seek_to_last", "btree::iter::BTreeIterator::<'a>::seek_backend_to_last"),
-                       ("btree::iter::BTreeIterator::<'a>::iter_inner", "btree::iter::BTreeIterator::<'a>::next_backend")):
+    for fn in ("btree::iter::BTreeIterator::<'a>::seek", "btree::iter::BTreeIterator::<'a>::seek_to_last", "btree::iter::BTreeIterator::<'a>::iter_inner"):
         b = ctx.body(fn)
         if b:
-            sites = b.call_sites(callee)
+            sites = b.call_sites(*REFRESHERS) if REFRESHERS else []
             ctx.ob('2h walk-anchor %s' % fn, 'anchor', fn, 'the iterator entry calls its tree walk once', len(sites) == 1, str(sites))
             for s2 in sites:
                 lib.held_at(ctx, '2i tree-walk-under-log-read-lock %s' % fn, b, s2, '.BTreeIterator.log',
